@@ -522,6 +522,7 @@ fn c15_diamonds(sc: &Reward, c: &Chain, o: &RObs, g: &G, cx: &mut Cx) {
                 cx.count("c15_diamond_pairs_not_both_enabled");
                 continue;
             }
+            cx.probe(4);
             cx.trigger("c15_diamond_pairs_compared");
             if store(&c1) != store(&c2) {
                 cx.viol("C15.commute", format!("order of {} and {} changes reward accounting", crate::hubcore::action_class(a), crate::hubcore::action_class(b)), format!("{} / {}", a.label, b.label));
